@@ -355,7 +355,7 @@ impl<'a, 'b> Script<'a, 'b> {
             return;
         }
         tokio::time::sleep(us(700)).await;
-        let kind = self.side_next(8);
+        let kind = self.side_next(9);
         let pidx = self.side_next(self.puppets.len() as u64) as usize;
         let p = self.puppets[pidx];
         let flip = |sig: &crypto::Signature, bit: usize| {
@@ -452,6 +452,11 @@ impl<'a, 'b> Script<'a, 'b> {
                     }
                     _ => ("none", None),
                 }
+            }
+            7 => {
+                // correctly signed timeout for a future round whose high QC is forged (its sender alone signed it)
+                let fake = self.w.qc_for(sha512_32(&cur.to_le_bytes()), cur + 2, &[p]);
+                ("timeout-valid-signature-forged-qc", Some(ConsensusMessage::Timeout(self.w.timeout(p, cur + 3, fake))))
             }
             _ => {
                 // vote by a key that is not in the committee
@@ -961,7 +966,27 @@ impl<'a, 'b> Script<'a, 'b> {
         let delta = self.t.range(1, 4);
         let future = self.t.chance(1, 2);
         let round = if future { self.cur + delta } else { self.cur.saturating_sub(delta).max(1) };
-        match self.t.below(3) {
+        match self.t.below(5) {
+            3 => {
+                // a forged TC message (one genuine signature, the rest junk): must not move the node
+                let signers = self.puppet_quorum();
+                let votes = signers
+                    .iter()
+                    .map(|i| {
+                        let hq = QC { hash: Digest::default(), round: 0, votes: Vec::new() };
+                        (self.w.pk(*i), self.w.timeout(p, round, hq).signature, 0u64)
+                    })
+                    .collect();
+                self.send_to_sut(p, &ConsensusMessage::TC(TC { round, votes })).await;
+                self.stat("forged-tc-message");
+            }
+            4 => {
+                // a correctly signed timeout whose high QC is forged (signed by its sender alone)
+                let fake = self.w.qc_for(sha512_32(&round.to_le_bytes()), round.saturating_sub(1).max(1), &[p]);
+                let t = self.w.timeout(p, round, fake);
+                self.send_to_sut(p, &ConsensusMessage::Timeout(t)).await;
+                self.stat("timeout-with-forged-qc");
+            }
             0 => {
                 let d = self.tip.clone().unwrap_or_else(|| sha512_32(b"none"));
                 let v = self.w.vote_for(p, d, round);
